@@ -232,6 +232,14 @@ fn regression(_t: Tier) -> Vec<Case> {
     vec![Case { h, class: "pendant-path".into() }, Case { h: Mat::new(2, 3), class: "empty".into() }]
 }
 
+/// fuzz-target body: a byte tape decoded into a matrix (all roots, all bounds)
+pub fn fuzz_bytes(data: &[u8]) -> Check {
+    let (h, _) = mat_from_bytes(data, 10, false);
+    let case = Case { h, class: "fuzz".into() };
+    let mut p = Probe::default();
+    guarded_check(|| check(&case, &mut p))
+}
+
 pub fn property() -> Property {
     Property {
         id: "C11",
